@@ -1,15 +1,24 @@
 // C29 — Continuous query windows are contiguous and processed once.
 //
-// Every event history up to a depth (clock ticks, scheduled executions with storage healthy / source
-// unreadable / destination writes failing, manual executions with and without an explicit range and as
-// dry run, restart, update of the definition) is executed on the REAL ContinuousQueryHandler + the real
+// Every event history of a bounded family (clock ticks, scheduled executions with storage healthy / source
+// unreadable / destination writes failing, manual executions of EVERY request shape — no bounds, start_time
+// only, end_time only, both, each also as dry run, the explicit bounds drawn from a grid relative to the
+// current last_processed_time L and the clock: before L, L, between L and now, now, and an old closed range —
+// restart, update of the definition) is executed on the REAL ContinuousQueryHandler + the real
 // CQScheduler glue + real DuckDB + real ArrowBuffer over a LocalBackend on tmpfs, with SQLite metadata on
 // tmpfs and the clock of continuous_query.go virtualised (shim/vclock, frozen between tick events).
 //
-// Oracle (the property, nothing more):
-//   - overlap: successful scheduled windows are pairwise non-overlapping;
-//   - gap: consecutive successful scheduled windows are contiguous (time between them may only be
-//     covered by successful manual executions performed in between);
+// Most passes append a fixed probe (tick(I), sched) to every enumerated history, so that what the NEXT
+// scheduled execution does after the enumerated events is always observed.
+//
+// Oracle (the property, nothing more). The in-band chain = completed scheduled executions and completed
+// manual executions WITHOUT explicit bounds (the request that does what a scheduler tick does):
+//   - overlap: a successful scheduled window overlaps no earlier window of the chain;
+//   - gap: a successful scheduled window starts where the previous window of the chain ended (time between
+//     them may only be covered, contiguously from that end, by windows of completed executions performed in
+//     between — i.e. by executions that really processed it). What a manual execution with explicit bounds
+//     does to last_processed_time is NOT prescribed (leaving it alone, or advancing it over a slice the
+//     execution itself processed, both keep the tiling); skipping or re-running a slice is what is caught;
 //   - failed-execution-advanced-window / dry-run-side-effect: an execution that did not complete leaves
 //     last_processed_time and the execution log's "completed" set untouched;
 //   - rows: the destination measurement, read back with an independent Parquet reader, holds exactly the
@@ -79,14 +88,95 @@ const (
 	eManualDry
 	eRestart
 	eUpdate
+	nCore // the core alphabet ends here; the events below are the other manual-execution request shapes
+	eStartPre = iota - 1
+	eStartL
+	eStartMid
+	eStartNow
+	eEndPre
+	eEndL
+	eEndMid
+	eEndNow
+	eRngPreL
+	eRngPreMid
+	eRngPreNow
+	eRngLMid
+	eRngLNow
+	eRngMidNow
+	eDryStartMid
+	eDryEndMid
+	eDryRngMidNow
 	nEvents
 )
 
 var evNames = [nEvents]string{"tick(I/2)", "tick(I)", "tick(3I)", "sched", "sched@source-unreadable", "sched@dest-write-fails",
-	"manual", "manual(range)", "manual(dry_run)", "restart", "update"}
+	"manual", "manual(range)", "manual(dry_run)", "restart", "update",
+	"manual(start=preL)", "manual(start=L)", "manual(start=mid)", "manual(start=now)",
+	"manual(end=preL)", "manual(end=L)", "manual(end=mid)", "manual(end=now)",
+	"manual(preL..L)", "manual(preL..mid)", "manual(preL..now)", "manual(L..mid)", "manual(L..now)", "manual(mid..now)",
+	"manual(dry_run start=mid)", "manual(dry_run end=mid)", "manual(dry_run mid..now)"}
+
+// The grid the explicit bounds of a manual execution are drawn from, RELATIVE to the state the request meets:
+// L = last_processed_time (when NULL: the default window start, now-1h truncated to the second) and the clock.
+//
+//	preL = L-30s   L   mid = L + half of (now-L) rounded down to 10 s (= L when less than 20 s passed)   now (whole second)
+//
+// Every bound is a whole second that is no source row's timestamp (rows sit on :x5 seconds).
+const (
+	pNone = iota
+	pPre
+	pL
+	pMid
+	pNow
+	pOld // the fixed old range [base-90m, base-75m)
+)
+
+type manualShape struct {
+	start, end int
+	dry        bool
+}
+
+var shapes = map[int]manualShape{
+	eManual: {pNone, pNone, false}, eManualRange: {pOld, pOld, false}, eManualDry: {pNone, pNone, true},
+	eStartPre: {pPre, pNone, false}, eStartL: {pL, pNone, false}, eStartMid: {pMid, pNone, false}, eStartNow: {pNow, pNone, false},
+	eEndPre: {pNone, pPre, false}, eEndL: {pNone, pL, false}, eEndMid: {pNone, pMid, false}, eEndNow: {pNone, pNow, false},
+	eRngPreL: {pPre, pL, false}, eRngPreMid: {pPre, pMid, false}, eRngPreNow: {pPre, pNow, false},
+	eRngLMid: {pL, pMid, false}, eRngLNow: {pL, pNow, false}, eRngMidNow: {pMid, pNow, false},
+	eDryStartMid: {pMid, pNone, true}, eDryEndMid: {pNone, pMid, true}, eDryRngMidNow: {pMid, pNow, true},
+}
+
+func gridPoint(p int, lp string, now time.Time, isEnd bool) (time.Time, bool) {
+	d := now.UTC().Truncate(time.Second)
+	ref := now.UTC().Add(-time.Hour).Truncate(time.Second)
+	if lp != "" {
+		t, err := time.Parse(time.RFC3339Nano, lp)
+		must(err, "parse last_processed_time")
+		ref = t.UTC()
+	}
+	switch p {
+	case pPre:
+		return ref.Add(-30 * time.Second), true
+	case pL:
+		return ref, true
+	case pMid:
+		half := (d.Sub(ref) / 2).Truncate(10 * time.Second)
+		if half < 0 {
+			half = 0
+		}
+		return ref.Add(half), true
+	case pNow:
+		return d, true
+	case pOld:
+		if isEnd {
+			return backfillEnd, true
+		}
+		return backfillStart, true
+	}
+	return time.Time{}, false
+}
 
 // simpler[e] = events that are tried in place of e while canonicalising a minimal counterexample
-var simpler = map[int][]int{eTickHalf: {eTick}, eTick3: {eTick}, eSchedRead: {eSched}, eSchedWrite: {eSched}}
+var simpler = map[int][]int{eTickHalf: {eTick}, eTick3: {eTick}, eSchedRead: {eSched}, eSchedWrite: {eSched}, eManual: {eSched}}
 
 type cqDef struct {
 	interval string
@@ -422,7 +512,8 @@ func (s *sys) destRows() []hx.Row {
 
 type window struct {
 	Ev     int    `json:"event_index"`
-	Kind   string `json:"kind"` // sched | manual | manual(range)
+	Kind   string `json:"kind"` // sched | manual | manual(<shape>)
+	Req    string `json:"request,omitempty"`
 	Status string `json:"status"`
 	Start  string `json:"start"`
 	End    string `json:"end"`
@@ -447,17 +538,20 @@ func f3(t time.Time) string { return t.UTC().Format("15:04:05.000") }
 
 // runSeq executes one history. The scheduler's own (real-time, 1-2 min) tickers must never fire inside a
 // history: one that took more than 40 s of real time is discarded and run again.
-func (w *worker) runSeq(seq []int, frac time.Duration) *outcome {
+//
+// checkAt > 0: the oracle is also evaluated after the first checkAt events (the enumerated history, before the
+// probe); it is always evaluated at the end.
+func (w *worker) runSeq(seq []int, frac time.Duration, checkAt int) *outcome {
 	for {
 		t0 := time.Now()
-		o := w.runSeq1(seq, frac)
+		o := w.runSeq1(seq, frac, checkAt)
 		if time.Since(t0) < 40*time.Second {
 			return o
 		}
 	}
 }
 
-func (w *worker) runSeq1(seq []int, frac time.Duration) *outcome {
+func (w *worker) runSeq1(seq []int, frac time.Duration, checkAt int) *outcome {
 	base := baseWhole.Add(frac)
 	vclock.Install(base)
 	vclock.SetTick(0)
@@ -470,7 +564,7 @@ func (w *worker) runSeq1(seq []int, frac time.Duration) *outcome {
 
 	// observe one execution attempt: at most one new log row; anything but "completed" must leave
 	// last_processed_time alone
-	observe := func(i int, kind, lpBefore string, expectNone bool) {
+	observe := func(i int, kind, req, lpBefore string, expectNone bool) {
 		ex := s.newExecs()
 		lpAfter := s.lastProcessed()
 		if len(ex) > 1 {
@@ -479,7 +573,7 @@ func (w *worker) runSeq1(seq []int, frac time.Duration) *outcome {
 		status := "rejected"
 		if len(ex) == 1 {
 			status = ex[0].status
-			o.windows = append(o.windows, window{Ev: i, Kind: kind, Status: status, Start: ex[0].start.Format(time.RFC3339Nano), End: ex[0].end.Format(time.RFC3339Nano),
+			o.windows = append(o.windows, window{Ev: i, Kind: kind, Req: req, Status: status, Start: ex[0].start.Format(time.RFC3339Nano), End: ex[0].end.Format(time.RFC3339Nano),
 				At: now().Format(time.RFC3339Nano), Def: s.def, s: ex[0].start, e: ex[0].end})
 		}
 		if expectNone {
@@ -493,7 +587,88 @@ func (w *worker) runSeq1(seq []int, frac time.Duration) *outcome {
 		}
 	}
 
+	// judge evaluates the oracle on everything recorded so far
+	judge := func() {
+		// ---- tiling: the in-band chain = completed scheduled executions + completed manual executions without
+		// explicit bounds; every scheduled window must start where the chain's previous window ended ----
+		var chain []int
+		for k, x := range o.windows {
+			if (x.Kind == "sched" || x.Kind == "manual") && x.Status == "completed" {
+				chain = append(chain, k)
+			}
+		}
+		for a := 1; a < len(chain); a++ {
+			cur := o.windows[chain[a]]
+			if cur.Kind != "sched" {
+				continue
+			}
+			for b := 0; b < a; b++ {
+				prev := o.windows[chain[b]]
+				if cur.s.Before(prev.e) && prev.s.Before(cur.e) {
+					what := "scheduled"
+					if prev.Kind != "sched" {
+						what = "default-range manual"
+					}
+					o.add("overlap", fmt.Sprintf("scheduled window [%s,%s) (event %d) overlaps the earlier %s window [%s,%s) (event %d)", f3(cur.s), f3(cur.e), cur.Ev, what, f3(prev.s), f3(prev.e), prev.Ev))
+				}
+			}
+			prev := o.windows[chain[a-1]]
+			if cur.s.After(prev.e) {
+				// the time between may only have been taken by completed executions in between, contiguously from prev.e
+				type iv struct{ s, e time.Time }
+				var fill []iv
+				for k := chain[a-1] + 1; k < chain[a]; k++ {
+					if x := o.windows[k]; x.Status == "completed" {
+						fill = append(fill, iv{x.s, x.e})
+					}
+				}
+				sort.Slice(fill, func(i, j int) bool { return fill[i].s.Before(fill[j].s) })
+				at := prev.e
+				for _, f := range fill {
+					if !f.s.After(at) && f.e.After(at) {
+						at = f.e
+					}
+				}
+				if at.Before(cur.s) {
+					o.add("gap", fmt.Sprintf("scheduled window [%s,%s) (event %d) starts after the previous in-band window ended at %s (event %d); [%s,%s) is summarised by no execution", f3(cur.s), f3(cur.e), cur.Ev, f3(prev.e), prev.Ev, f3(at), f3(cur.s)))
+				}
+			}
+		}
+
+		// ---- rows in the destination measurement ----
+		got := s.destRows()
+		o.dest = len(got)
+		gotN := map[string]int{}
+		for _, r := range got {
+			gotN[r.Key()]++
+		}
+		var want []hx.Row
+		for _, x := range o.windows {
+			if x.Status != "completed" {
+				continue
+			}
+			rows := expectRows(w.rows, x.Def, x.s, x.e)
+			if seq[x.Ev] == eSchedWrite {
+				// the execution handed its rows to the asynchronous ingest buffer and completed; that the later
+				// storage write of buffered rows failed is not this property's subject (durability of buffered
+				// rows is C07's): such rows are neither demanded nor forbidden
+				for _, r := range rows {
+					if gotN[r.Key()] > 0 {
+						gotN[r.Key()]--
+						want = append(want, r)
+					}
+				}
+				continue
+			}
+			want = append(want, rows...)
+		}
+		classifyRows(o, want, got)
+	}
+
 	for i, e := range seq {
+		if checkAt > 0 && i == checkAt {
+			judge()
+		}
 		w.nTrans++
 		switch e {
 		case eTickHalf:
@@ -519,25 +694,7 @@ func (w *worker) runSeq1(seq []int, frac time.Duration) *outcome {
 				must(os.Rename(srcDir+".offline", srcDir), "bring source back")
 			}
 			s.fb.fail = false
-			observe(i, "sched", lp, false)
-		case eManual, eManualRange, eManualDry:
-			lp := s.lastProcessed()
-			body := []byte(`{}`)
-			kind := "manual"
-			if e == eManualRange { // backfill of an old hour that no default window reaches
-				kind = "manual(range)"
-				body, _ = json.Marshal(map[string]any{"start_time": backfillStart.Format(time.RFC3339), "end_time": backfillEnd.Format(time.RFC3339)})
-			}
-			if e == eManualDry {
-				kind = "manual(dry_run)"
-				body = []byte(`{"dry_run": true}`)
-			}
-			code, resp := s.call("POST", fmt.Sprintf("%s/%d/execute", cqPath, s.cqID), body)
-			if code != 200 && code != 400 && code != 500 {
-				ev.Unbound(fmt.Sprintf("manual execute: HTTP %d %s", code, resp))
-			}
-			flush()
-			observe(i, kind, lp, e == eManualDry)
+			observe(i, "sched", "", lp, false)
 		case eRestart:
 			s.shutdown()
 			s.boot()
@@ -549,79 +706,37 @@ func (w *worker) runSeq1(seq []int, frac time.Duration) *outcome {
 			if code, resp := s.call("PUT", fmt.Sprintf("%s/%d", cqPath, s.cqID), body); code != 200 {
 				ev.Unbound(fmt.Sprintf("update CQ: HTTP %d %s", code, resp))
 			}
+		default: // a manual execution; explicit bounds are taken from the grid relative to (L, now) at this moment
+			sh, ok := shapes[e]
+			if !ok {
+				ev.Unbound("event without a definition: " + evNames[e])
+			}
+			lp := s.lastProcessed()
+			m := map[string]any{}
+			if t, ok := gridPoint(sh.start, lp, now(), false); ok {
+				m["start_time"] = t.Format(time.RFC3339)
+			}
+			if t, ok := gridPoint(sh.end, lp, now(), true); ok {
+				m["end_time"] = t.Format(time.RFC3339)
+			}
+			if sh.dry {
+				m["dry_run"] = true
+			}
+			body, _ := json.Marshal(m) // map keys are marshalled sorted
+			code, resp := s.call("POST", fmt.Sprintf("%s/%d/execute", cqPath, s.cqID), body)
+			if code != 200 && code != 400 && code != 500 {
+				ev.Unbound(fmt.Sprintf("manual execute: HTTP %d %s", code, resp))
+			}
+			flush()
+			observe(i, evNames[e], string(body), lp, sh.dry)
 		}
 		w.noteState(s, o, now().Sub(base))
 	}
 	flush()
-
-	// ---- tiling of the successful scheduled windows ----
-	var sched []int
-	for k, x := range o.windows {
-		if x.Kind == "sched" && x.Status == "completed" {
-			sched = append(sched, k)
-		}
-	}
-	for a := 1; a < len(sched); a++ {
-		cur := o.windows[sched[a]]
-		for b := 0; b < a; b++ {
-			prev := o.windows[sched[b]]
-			if cur.s.Before(prev.e) && prev.s.Before(cur.e) {
-				o.add("overlap", fmt.Sprintf("scheduled window [%s,%s) (event %d) overlaps the earlier scheduled window [%s,%s) (event %d)", f3(cur.s), f3(cur.e), cur.Ev, f3(prev.s), f3(prev.e), prev.Ev))
-			}
-		}
-		prev := o.windows[sched[a-1]]
-		if cur.s.After(prev.e) {
-			// the time between may only have been taken by successful manual executions in between
-			type iv struct{ s, e time.Time }
-			var fill []iv
-			for k := sched[a-1] + 1; k < sched[a]; k++ {
-				if x := o.windows[k]; x.Status == "completed" {
-					fill = append(fill, iv{x.s, x.e})
-				}
-			}
-			sort.Slice(fill, func(i, j int) bool { return fill[i].s.Before(fill[j].s) })
-			at := prev.e
-			for _, f := range fill {
-				if !f.s.After(at) && f.e.After(at) {
-					at = f.e
-				}
-			}
-			if at.Before(cur.s) {
-				o.add("gap", fmt.Sprintf("scheduled window [%s,%s) (event %d) starts after the previous scheduled window ended at %s (event %d); [%s,%s) is summarised by no execution", f3(cur.s), f3(cur.e), cur.Ev, f3(prev.e), prev.Ev, f3(at), f3(cur.s)))
-			}
-		}
-	}
-
-	// ---- rows in the destination measurement ----
-	got := s.destRows()
-	o.dest = len(got)
-	gotN := map[string]int{}
-	for _, r := range got {
-		gotN[r.Key()]++
-	}
-	var want []hx.Row
-	for _, x := range o.windows {
-		if x.Status != "completed" {
-			continue
-		}
-		rows := expectRows(w.rows, x.Def, x.s, x.e)
-		if seq[x.Ev] == eSchedWrite {
-			// the execution handed its rows to the asynchronous ingest buffer and completed; that the later
-			// storage write of buffered rows failed is not this property's subject (durability of buffered
-			// rows is C07's): such rows are neither demanded nor forbidden
-			for _, r := range rows {
-				if gotN[r.Key()] > 0 {
-					gotN[r.Key()]--
-					want = append(want, r)
-				}
-			}
-			continue
-		}
-		want = append(want, rows...)
-	}
-	classifyRows(o, want, got)
+	judge()
 	return o
 }
+
 
 func sansTime(r hx.Row) string {
 	c := hx.Row{}
@@ -722,22 +837,136 @@ func names(seq []int) string {
 
 // ---- enumeration ----------------------------------------------------------------------------------
 
+// A pass = a family of histories, each run on a fresh system with the clock starting at base+frac and, when
+// probe is set, followed by the fixed probe (tick(I), sched); then the oracle is evaluated both on the
+// enumerated history and after the probe.
 type pass struct {
-	name  string
-	frac  time.Duration
-	depth int
+	name   string
+	frac   time.Duration
+	maxLen int
+	probe  bool
+	what   string
+	gen    func(yield func([]int) bool) // every history of the family, in a fixed order; stops when yield returns false
 }
 
-func passes(quick bool) []pass {
-	d := 5
-	if quick {
-		d = 4
+var probeEvents = []int{eTick, eSched}
+
+func alphabet(from, to int) []int {
+	var out []int
+	for e := from; e < to; e++ {
+		out = append(out, e)
 	}
-	// development aid (mutation runs): a smaller bound; the evidence then says exhaustive=false
-	if n, err := strconv.Atoi(os.Getenv("VERIF_C29_DEPTH")); err == nil && n >= 2 && n < d {
+	return out
+}
+
+func evList(es []int) string { return "{" + names(es) + "}" }
+
+// genAll: every history of length 1..maxLen over the alphabet
+func genAll(alpha []int, maxLen int) func(func([]int) bool) { return genLen(alpha, 1, maxLen) }
+
+// genLen: every history of length minLen..maxLen over the alphabet
+func genLen(alpha []int, minLen, maxLen int) func(func([]int) bool) {
+	return func(yield func([]int) bool) {
+		ok := true
+		for length := minLen; length <= maxLen && ok; length++ {
+			seq := make([]int, length)
+			var rec func(i int)
+			rec = func(i int) {
+				if !ok {
+					return
+				}
+				if i == length {
+					ok = yield(seq)
+					return
+				}
+				for _, e := range alpha {
+					seq[i] = e
+					rec(i + 1)
+				}
+			}
+			rec(0)
+		}
+	}
+}
+
+// genOne: every history of length 1..maxLen with exactly one event of `one` (at any position), the other
+// events taken from ctx
+func genOne(one, ctx []int, maxLen int) func(func([]int) bool) {
+	return func(yield func([]int) bool) {
+		ok := true
+		for length := 1; length <= maxLen && ok; length++ {
+			for pos := 0; pos < length && ok; pos++ {
+				seq := make([]int, length)
+				var rec func(i int)
+				rec = func(i int) {
+					if !ok {
+						return
+					}
+					if i == length {
+						ok = yield(seq)
+						return
+					}
+					al := ctx
+					if i == pos {
+						al = one
+					}
+					for _, e := range al {
+						seq[i] = e
+						rec(i + 1)
+					}
+				}
+				rec(0)
+			}
+		}
+	}
+}
+
+const q250 = 250 * time.Millisecond
+
+func passes(quick bool) []pass {
+	core, shapesOnly, all := alphabet(0, nCore), alphabet(nCore, nEvents), alphabet(0, nEvents)
+	// the events that matter around a manual execution: time passing, an in-band execution of either kind, a
+	// restart, a changed definition
+	ctx := []int{eTickHalf, eTick, eSched, eManual, eRestart, eUpdate}
+	small := []int{eTick, eSched, eManual}
+	d := 0
+	// development aid (mutation runs): smaller bounds; the evidence then says exhaustive=false
+	if n, err := strconv.Atoi(os.Getenv("VERIF_C29_DEPTH")); err == nil && n >= 1 {
 		d = n
 	}
-	return []pass{{"clock@.250s", 250 * time.Millisecond, d}, {"clock@.000s", 0, d - 1}}
+	cut := func(n int) int {
+		if d > 0 && d < n {
+			return d
+		}
+		return n
+	}
+	mk := func(name string, frac time.Duration, maxLen int, what string, gen func(func([]int) bool)) pass {
+		return pass{name: name, frac: frac, maxLen: maxLen, probe: true, what: what, gen: gen}
+	}
+	if quick {
+		// the longer histories of the quick tier: time passing, the in-band executions, a failing execution, the
+		// old backfill, a restart (every history of the core alphabet up to this length is in thorough)
+		deep := []int{eTickHalf, eTick, eSched, eSchedRead, eManual, eManualRange, eRestart}
+		return []pass{
+			mk("core@.250s", q250, cut(3), "every history of length 1..%d over the core alphabet "+evList(core), genAll(core, cut(3))),
+			mk("shapes@.250s", q250, cut(3), "every history of length 1..%d with exactly one of the manual request shapes "+evList(shapesOnly)+" and the other events from "+evList(ctx), genOne(shapesOnly, ctx, cut(3))),
+			mk("core@.000s", 0, cut(2), "every history of length 1..%d over the core alphabet", genAll(core, cut(2))),
+			mk("shapes@.000s", 0, cut(3), "every history of length 1..%d with exactly one of the manual request shapes and the other events from "+evList(small), genOne(shapesOnly, small, cut(3))),
+			{name: "deep@.250s", frac: q250, maxLen: cut(4), what: "every history of length %d over " + evList(deep), gen: genLen(deep, cut(4), cut(4))},
+		}
+	}
+	return []pass{
+		mk("all@.250s", q250, cut(3), "every history of length 1..%d over the whole alphabet (core + all manual request shapes)", genAll(all, cut(3))),
+		mk("core@.250s", q250, cut(4), "every history of length 1..%d over the core alphabet "+evList(core), genAll(core, cut(4))),
+		mk("core@.000s", 0, cut(3), "every history of length 1..%d over the core alphabet", genAll(core, cut(3))),
+		mk("shapes@.000s", 0, cut(3), "every history of length 1..%d with exactly one of the manual request shapes "+evList(shapesOnly)+" and the other events from the core alphabet", genOne(shapesOnly, core, cut(3))),
+	}
+}
+
+func (p pass) count() int64 {
+	var n int64
+	p.gen(func([]int) bool { n++; return true })
+	return n
 }
 
 func isSubseq(small, big []int) bool {
@@ -765,7 +994,7 @@ func (w *worker) minimise(seq []int, kind string, frac time.Duration) []int {
 		if len(h) == 0 {
 			return false
 		}
-		_, ok := w.runSeq(h, frac).kinds[kind]
+		_, ok := w.runSeq(h, frac, 0).kinds[kind]
 		return ok
 	}
 	cur := ev.Minimize(seq, fails)
@@ -805,89 +1034,87 @@ func runShard(run *ev.Run, idx, total int) {
 	complete := true
 	for _, p := range passes(run.Quick()) {
 		var k int64
-		for length := 1; length <= p.depth && complete; length++ {
-			seq := make([]int, length)
-			var rec func(i int)
-			rec = func(i int) {
-				if !complete {
-					return
+		p.gen(func(hist []int) bool {
+			k++
+			if int(k%int64(total)) != idx {
+				return true
+			}
+			if run.TimeUp() {
+				complete = false
+				return false
+			}
+			seq, checkAt := append([]int{}, hist...), 0
+			if p.probe {
+				seq, checkAt = append(seq, probeEvents...), len(hist)
+			}
+			t0 := time.Now()
+			o := w.runSeq(seq, p.frac, checkAt)
+			counters["shard_ms@"+p.name] += time.Since(t0).Milliseconds()
+			counters["transitions"] += int64(len(seq))
+			counters["histories"]++
+			counters["histories@"+p.name]++
+			nc, nf := 0, 0
+			for _, x := range o.windows {
+				if x.Status == "completed" {
+					nc++
+				} else {
+					nf++
 				}
-				if i == length {
-					k++
-					if int(k%int64(total)) != idx {
-						return
-					}
-					if run.TimeUp() {
-						complete = false
-						return
-					}
-					o := w.runSeq(seq, p.frac)
-					counters["transitions"] += int64(len(seq))
-					counters["histories"]++
-					counters["histories@"+p.name]++
-					nc, nf := 0, 0
-					for _, x := range o.windows {
-						if x.Status == "completed" {
-							nc++
-						} else {
-							nf++
-						}
-					}
-					counters["executions_completed"] += int64(nc)
-					counters["executions_failed"] += int64(nf)
-					counters["destination_rows_checked"] += int64(o.dest)
-					if nc >= 2 {
-						counters["histories_with_2+_completed_windows"]++
-					}
-					if length == p.depth && nc >= 2 && nf >= 1 {
-						ks := []string{}
-						for kind := range o.kinds {
-							ks = append(ks, kind)
-						}
-						sort.Strings(ks)
-						smp := map[string]any{"pass": p.name, "events": strings.Split(names(seq), ","), "windows": o.windows, "destination_rows": o.dest, "violations": ks}
-						if len(ks) == 0 {
-							samples.Add(smp)
-						} else {
-							samplesBad.Add(smp)
-						}
-					}
-					if len(o.kinds) == 0 {
-						return
-					}
-					counters["histories_violating"]++
-					for kind := range o.kinds {
-						var hit *class
-						for _, c := range byKind[p.name+"|"+kind] {
-							if isSubseq(c.seq, seq) {
-								hit = c
-								break
-							}
-						}
-						if hit == nil {
-							min := w.minimise(append([]int{}, seq...), kind, p.frac)
-							sig := kind + "|" + names(min)
-							hit = classes[sig]
-							if hit == nil {
-								mo := w.runSeq(min, p.frac)
-								hit = &class{kind: kind, seq: min, desc: mo.kinds[kind], win: mo.windows, frac: "250ms"}
-								if p.frac == 0 {
-									hit.frac = "0"
-								}
-								classes[sig] = hit
-							}
-							byKind[p.name+"|"+kind] = append(byKind[p.name+"|"+kind], hit)
-						}
-						hit.n++
-					}
-					return
-				}
-				for e := 0; e < nEvents; e++ {
-					seq[i] = e
-					rec(i + 1)
+				if x.Ev < len(hist) && x.Kind != "sched" && x.Kind != "manual" {
+					counters["manual_executions_with_explicit_bounds_logged"]++
 				}
 			}
-			rec(0)
+			counters["executions_completed"] += int64(nc)
+			counters["executions_failed"] += int64(nf)
+			counters["destination_rows_checked"] += int64(o.dest)
+			if nc >= 2 {
+				counters["histories_with_2+_completed_windows"]++
+			}
+			if len(hist) == p.maxLen && nc >= 3 && nf >= 1 {
+				ks := []string{}
+				for kind := range o.kinds {
+					ks = append(ks, kind)
+				}
+				sort.Strings(ks)
+				smp := map[string]any{"pass": p.name, "events": strings.Split(names(seq), ","), "windows": o.windows, "destination_rows": o.dest, "violations": ks}
+				if len(ks) == 0 {
+					samples.Add(smp)
+				} else {
+					samplesBad.Add(smp)
+				}
+			}
+			if len(o.kinds) == 0 {
+				return true
+			}
+			counters["histories_violating"]++
+			for kind := range o.kinds {
+				var hit *class
+				for _, c := range byKind[p.name+"|"+kind] {
+					if isSubseq(c.seq, seq) {
+						hit = c
+						break
+					}
+				}
+				if hit == nil {
+					min := w.minimise(append([]int{}, seq...), kind, p.frac)
+					sig := kind + "|" + names(min)
+					hit = classes[sig]
+					if hit == nil {
+						mo := w.runSeq(min, p.frac, 0)
+						hit = &class{kind: kind, seq: min, desc: mo.kinds[kind], win: mo.windows, frac: "250ms"}
+						if p.frac == 0 {
+							hit.frac = "0"
+						}
+						classes[sig] = hit
+					}
+					byKind[p.name+"|"+kind] = append(byKind[p.name+"|"+kind], hit)
+				}
+				hit.n++
+			}
+			return true
+		})
+		if !complete {
+			break
 		}
 	}
 	for sig, c := range classes {
@@ -941,7 +1168,7 @@ func replay(run *ev.Run) {
 	root := fmt.Sprintf("/dev/shm/verif.c29.%d", os.Getpid())
 	defer os.RemoveAll(root)
 	w := newWorker(root, 5)
-	o := w.runSeq(seq, frac)
+	o := w.runSeq(seq, frac, 0)
 	out, _ := json.MarshalIndent(map[string]any{"events": r.Replay.Events, "windows": o.windows, "violations": o.kinds, "destination_rows": o.dest}, "", " ")
 	fmt.Println(string(out))
 	w.duck.Close()
@@ -986,12 +1213,10 @@ func main() {
 	os.RemoveAll(root)
 	ps := passes(run.Quick())
 	var want int64
+	wantBy := map[string]int64{}
 	for _, p := range ps {
-		n := int64(1)
-		for l := 1; l <= p.depth; l++ {
-			n *= nEvents
-			want += n
-		}
+		wantBy[p.name] = p.count()
+		want += wantBy[p.name]
 	}
 	if complete && counters["histories"] != want {
 		ev.Unbound(fmt.Sprintf("enumerated %d histories, the bound has %d", counters["histories"], want))
@@ -1011,9 +1236,16 @@ func main() {
 	run.Coverage["samples"] = samples
 	run.Coverage["histories_in_bound"] = want
 	run.Coverage["alphabet"] = evNames[:]
+	run.Coverage["core_alphabet"] = evNames[:nCore]
+	run.Coverage["manual_request_grid"] = "explicit start_time/end_time of a manual execution are taken, at the moment of the request, from {preL = L-30s, L, mid = L + half of (now-L) rounded down to 10 s, now truncated to the second} with L = last_processed_time (when NULL: now-1h, the default window start); manual(range) is the fixed old range [base-90m, base-75m)"
+	run.Coverage["manual_executions_with_explicit_bounds_logged"] = counters["manual_executions_with_explicit_bounds_logged"]
 	var pd []string
 	for _, p := range ps {
-		pd = append(pd, fmt.Sprintf("%s: every history of length 1..%d (%d run)", p.name, p.depth, counters["histories@"+p.name]))
+		pr := ""
+		if p.probe {
+			pr = ", each followed by the probe " + evList(probeEvents)
+		}
+		pd = append(pd, fmt.Sprintf("%s: "+p.what+"%s (%d of %d run, %d s summed over the shards)", p.name, p.maxLen, pr, counters["histories@"+p.name], wantBy[p.name], counters["shard_ms@"+p.name]/1000))
 	}
 	run.Coverage["passes"] = pd
 	run.Coverage["executions_completed"] = counters["executions_completed"]
@@ -1025,6 +1257,7 @@ func main() {
 	run.Assume("clock: time.Now/Since in internal/api/continuous_query.go read the virtual clock, frozen between tick events; the scheduler's ticker is not used — a scheduled execution is CQScheduler.executeJob called synchronously for the registered job (what runJob does on a tick)")
 	run.Assume("the ArrowBuffer is flushed explicitly after every execution event (stands for the 5 s age flush, far shorter than the 10 s minimum CQ interval); during sched@dest-write-fails the execution and that flush both see storage.Write fail (if the execution still completes because the write is asynchronous, its output rows are neither demanded nor forbidden: buffered-row durability is C07's subject); sched@source-unreadable takes the source measurement directory offline for the execution")
 	run.Assume("restart is graceful (scheduler.Stop, ArrowBuffer.Close, handler.Close, then new objects over the same SQLite file and store); no WAL is attached to the ArrowBuffer")
+	run.Assume("what a manual execution must do: without explicit bounds it is in-band (it does what a scheduler tick does, so the next scheduled window starts at its end); with an explicit start_time and/or end_time nothing is prescribed for last_processed_time beyond the tiling itself — the next scheduled window must start where the previous in-band window ended unless completed executions in between cover the time between contiguously (so leaving last_processed_time alone, or advancing it over a slice the execution really processed, are both accepted; jumping over an unprocessed slice or back over a processed one is not). Explicit bounds in the future are not enumerated; a rejected (HTTP 400), failed or dry-run request must leave last_processed_time and the execution log's completed set alone")
 	run.Assume("manual(range) is a backfill of [base-90m, base-75m), older than any default window; interval I = 1m (the scheduler's real ticker never fires); tag_columns=[host]; two definitions (implicit label / explicit CAST({start_time} AS TIMESTAMP) AS time)")
 	run.Finish()
 }
